@@ -6,7 +6,7 @@ from .tparse import timeline
 MODE = "sim"
 FLAVOUR = "plain"
 CHUNK = 60
-RULE = ("one-directional composed transfers (write-all then close on one side, read-all on the other) of 1 B..300 kB over 1-3 hops each "
+RULE = ("one-directional composed transfers (write-all, then close 100 virtual seconds later so that both sockets stay open while data is outstanding, on one side, read-all on the other) of 1 B..300 kB over 1-3 hops each "
         "way with bandwidth 0/5 kB/s..50 MB/s, latency 0..500 ms, capacity unlimited or from one segment (1515 B) up, lossy hops with "
         "explicit drop verdicts; the oracle demands that every completed write-all followed by close is matched by a read-all ending in "
         "EOF with the same byte count and digest, and that connects to a listening acceptor with an accept outstanding complete; "
@@ -23,10 +23,8 @@ def gen(rng, k):
     lossy = None
     cap = 0
     kind = r.random()
-    if kind < 0.35:
+    if kind < 0.6:
         cap = r.choice([1515, 1516, 3100, 3100, 4600, 20000])
-    elif kind < 0.6:
-        lossy = [r.choice([0, 0, 1]) for _ in range(r.choice([2, 4, 8, 16]))]
     net = Net(r, nnodes=2, cap=cap, lossy=lossy, bw=r.choice([0, 5000, 200000, 800000, 50000000]),
               lat=r.choice([0, 1000000, 30000000, 500000000]))
     L = net.lines
@@ -36,10 +34,12 @@ def gen(rng, k):
     if r.random() < 0.5:
         # client sends, server reads
         L += ["H 11 tcp_write_all 3 %d %d %d 12" % (r.randrange(1000), total, r.choice([1475, 4000, 65536, 1 << 20])),
-              "H 12 tcp_close 3", "H 10 tcp_read_all 2 %d 13" % r.choice([100, 1475, 4096, 65536])]
+              "H 12 expires_after 7 100000000000", "H 12 async_wait 7 14", "H 14 tcp_close 3",
+              "H 10 tcp_read_all 2 %d 13" % r.choice([100, 1475, 4096, 65536])]
     else:
         L += ["H 10 tcp_write_all 2 %d %d %d 12" % (r.randrange(1000), total, r.choice([1475, 4000, 65536, 1 << 20])),
-              "H 12 tcp_close 2", "H 11 tcp_read_all 3 %d 13" % r.choice([100, 1475, 4096, 65536])]
+              "H 12 expires_after 7 100000000000", "H 12 async_wait 7 14", "H 14 tcp_close 2",
+              "H 11 tcp_read_all 3 %d 13" % r.choice([100, 1475, 4096, 65536])]
     L.append("M run")
     return L
 
@@ -47,6 +47,22 @@ def gen(rng, k):
 def generate(rng, tier):
     n = 150 if tier == "quick" else 3000
     return [("p%d" % k, gen(rng, k)) for k in range(n)]
+
+
+def oracle_with_model(lines, trace, mtrace):
+    """a stall is classified with the model's final state (the model's trace equals the
+    implementation's, so its state explains the stall): segments parked for retransmission with
+    nothing in flight = the library has no retransmission timer (known finding D10)"""
+    fails = oracle(lines, trace)
+    out = []
+    z = [l for l in mtrace if l.startswith("Z tcp")]
+    parked = any("outgoing=0" not in l and " inflight=0 " in l for l in z)
+    for sig, msg in fails:
+        if sig == "c06/stall" and parked and mtrace and [l for l in mtrace if not l.startswith("Z ")] == trace:
+            out.append(("c06/stall/parked-nothing-in-flight", msg + " [model: a dropped segment waits for an ACK that cannot come]"))
+        else:
+            out.append((sig, msg))
+    return out
 
 
 def oracle(lines, trace):
